@@ -26,6 +26,7 @@ Reading of the statement.
   a scheme; ignored locations are compared as raw strings, exactly.
 -/
 import Macaroon.Lemmas.Client
+import Macaroon.Lemmas.ClientBundle
 
 namespace Macaroon.Props.C20
 open Macaroon.TPClient Macaroon.Lemmas.Client
@@ -241,6 +242,55 @@ theorem result_header (mu : Bool) (cfg : Cfg) (stripped : Bool) (kept : List Str
     funext lt
     split <;> simp_all
 
+/-! ### the returned header, over the bundle model (C13) -/
+
+section overBundle
+open Macaroon Macaroon.Bundle Macaroon.Lemmas.ClientBundle
+
+/-- **fetch_over_bundle.**  `fetch` with its parameters instantiated by the bundle model: `kept` =
+the token texts of `ParseBundle(firstPartyLocation, header)` (default filter), `toks` =
+`Bundle.AddTokens`.  With `bf` = the caller's bundle after `AddTokens` of every collected discharge
+(a failing `AddTokens` changes nothing): the returned header is `bf.Header()` when the caller's header
+carried a scheme and `bf.String()` otherwise; `bf`'s tokens are the caller's tokens, untouched and in
+their order, followed by new ones; the caller's tokens are a sub-list, in order and verbatim, of the
+comma-separated entries of the caller's header (`default_filter_keeps_order` of C13); and the new
+token texts are exactly the collected discharges' tokens.  (`tickets` and `script` — which flows run and
+what the third parties answer — stay parameters: the client model names tickets by numbers, the
+bundle model by their bytes; `ignored_never_contacted` is about them.) -/
+theorem fetch_over_bundle (mu : Bool) (cfg : Cfg) (pl : Bytes) (hdr : List Char)
+    (tickets : List (List Char × List Nat)) (script : List Char → Nat → List Resp) :
+    let b0 := (Bundle.parse pl hdr).1
+    let r := fetch mu cfg (Header.stripScheme hdr).2 (b0.ts.map Tok.str) tickets addToks script
+    let bf := addAll b0 (collected r.flows)
+    r.header = (if (Header.stripScheme hdr).2 then bf.header else Bundle.tokString bf.ts) ∧
+    (∃ new, bf.ts = b0.ts ++ new) ∧
+    (b0.ts.map Tok.str).Sublist ((Header.parts hdr).map Header.trim) ∧
+    bf.ts.map Tok.str = b0.ts.map Tok.str ++ r.discharges := by
+  intro b0 r bf
+  have hd : r.discharges = (collected r.flows).flatMap fun d => (addToks d).getD [] := discharges_eq _
+  have hstr : bf.ts.map Tok.str = b0.ts.map Tok.str ++ r.discharges := by
+    rw [hd]; exact addAll_strs _ _
+  have hsub : (b0.ts.map Tok.str).Sublist ((Header.parts hdr).map Header.trim) := by
+    rw [← Lemmas.BundleL.parseToks_str hdr]
+    have : b0.ts = (Bundle.parseToks hdr).filter (Lemmas.BundleL.defaultKeep pl (Bundle.parseToks hdr)) :=
+      Lemmas.BundleL.default_apply pl _
+    rw [this]
+    exact List.filter_sublist.map _
+  refine ⟨?_, addAll_prefix _ _, hsub, hstr⟩
+  show (if (Header.stripScheme hdr).2 then tokensHeader (b0.ts.map Tok.str ++ r.discharges)
+      else tokensString (b0.ts.map Tok.str ++ r.discharges)) = _
+  rw [← hstr]
+  cases (Header.stripScheme hdr).2
+  · simp only [Bool.false_eq_true, if_false, Bundle.tokString, tokensString_eq_joinWith]
+  · simp only [if_true, Bundle.header, Bundle.headerOf, tokensHeader]
+    cases hts : bf.ts with
+    | nil => simp
+    | cons t ts =>
+      simp only [List.map_cons, reduceCtorEq, if_false, Bundle.tokString, tokensString_eq_joinWith]
+      rfl
+
+end overBundle
+
 /-! ### witnesses, non-vacuity, observations -/
 
 section examples
@@ -374,3 +424,4 @@ end Macaroon.Props.C20
 #print axioms Macaroon.Props.C20.case_and_trailing_dot_not_folded
 #print axioms Macaroon.Props.C20.in_place_header_leaks_to_subdomain
 #print axioms Macaroon.Props.C20.credential_to_every_request_of_its_host
+#print axioms Macaroon.Props.C20.fetch_over_bundle
